@@ -36,6 +36,7 @@ type Prop struct {
 	Jobs     []Job
 	Panics   bool // feasible panics in these jobs violate the property
 	Progress bool // deadlock / spin / lock-left-held findings violate the property
+	Lockset  bool // writes to a guarded cell without its mutex violate the property
 	Level    string
 	Assume   []string
 	Bounds   map[string]string
@@ -231,7 +232,11 @@ func cmdCheck(args []string) int {
 				strs = o.res.Strings
 			}
 		}
-		rq = append(rq, replayReq{job: v.job, kind: v.f.Kind, label: v.f.Label, model: v.f.Model, strs: strs, tries: 40})
+		tries := 40
+		if v.f.Kind == "lockset" {
+			tries = -1 // lock-discipline obligation: nothing a single-goroutine native run could show
+		}
+		rq = append(rq, replayReq{job: v.job, kind: v.f.Kind, label: v.f.Label, model: v.f.Model, strs: strs, tries: tries})
 	}
 	rres := runReplays(prop.ID, rq)
 	violations := 0
@@ -251,6 +256,9 @@ func cmdCheck(args []string) int {
 				ev.obsCompared += r.obsCompared
 			}
 			continue
+		}
+		if q.kind == "lockset" {
+			r.reproduced, r.outcome = true, "lock-discipline obligation, decided by the solver only (not natively replayable)"
 		}
 		if r.reproduced {
 			violations++
@@ -318,6 +326,8 @@ func (p *Prop) relevant(f Finding) bool {
 		return p.Panics
 	case "deadlock", "spin":
 		return p.Progress
+	case "lockset":
+		return p.Lockset
 	case "unwind":
 		return true
 	}
